@@ -154,6 +154,13 @@ def _calls(ctx, group, layout):
                 lambda: T.sub(2., Y), lambda: T.outer_many([Y, Z]), lambda: T.interface(Y, norm=None),
                 lambda: T.interface(Y, pv, [1, 0], None, True), lambda: T.get_and_grad(Y, [1, 1]), lambda: T.norm(Z),
                 lambda: T.accuracy_on_data(Y, I2, dd), lambda: T.shape(Y), lambda: T.ranks(Y), lambda: T.size(Y), lambda: T.erank(Y)]
+    if group == 'optima':
+        # beam search on a tensor that is already orthogonal (to_orth=False): no factorisation involved
+        Y1 = [_layout(ctx.array('o0', (1, 2, 1)), layout), _layout(ctx.array('o1', (1, 2, 1)), layout)]
+        Yd1 = [_layout(ctx.array('s0', (1, 3, 1)), layout)]
+        return [lambda: T.optima_tt_beam(Y1, 1, l2r=True, to_orth=False, p=2),
+                lambda: T.optima_tt_beam(Y1, 2, l2r=False, to_orth=False, p=4),
+                lambda: T.full(Yd1), lambda: T.copy(Yd1), lambda: T.sum(Yd1)]
     if group == 'core':
         G = _layout(ctx.array('g', (2, 2, 2)), layout)
         R = _layout(ctx.array('r', (2, 2)), layout)
@@ -206,7 +213,7 @@ def _calls(ctx, group, layout):
     raise KeyError(group)
 
 
-N_STEPS = {'act': 26, 'core': 6, 'tensors_grid': 15, 'func': 13, 'anova_sample': 4}
+N_STEPS = {'act': 26, 'core': 6, 'tensors_grid': 15, 'func': 13, 'anova_sample': 4, 'optima': 5}
 
 
 def h_templates(ctx, group, layout, step):
@@ -302,7 +309,7 @@ def h_concrete_layouts(ctx, layout):
 def instances(tier):
     out = []
     quick = tier == 'quick'
-    for group in ['act', 'core', 'tensors_grid', 'func', 'anova_sample']:
+    for group in ['act', 'core', 'tensors_grid', 'func', 'anova_sample', 'optima']:
         for layout in ('C', 'F', 'S'):
             for step in range(N_STEPS[group]):
                 out.append({'func': 'h_templates', 'params': {'group': group, 'layout': layout, 'step': step},
